@@ -5,6 +5,7 @@ package main
 import (
 	"fmt"
 	"sort"
+	"strings"
 
 	"golang.org/x/tools/go/ssa"
 )
@@ -40,13 +41,19 @@ func ruleOU15(c *Ctx) {
 		c.bad("<module>", "stdin-readers", "-", "no read of os.Stdin found in the module (input parsers gone?)")
 		return
 	}
-	// functions from which a reader is reachable
+	// functions from which a reader is reachable. Building a command object is not running it: a closure that is only
+	// stored into a field of a cobra.Command (RunE: func(...) {...}) is reached by cobra's Execute, not by the
+	// constructor that registers it
+	handlers := c.cobraHandlers()
+	registration := func(from *ssa.Function, e cgEdge) bool {
+		return (e.Kind == "closure" || e.Kind == "funcvalue") && handlers[e.To] && c.registeredOnly(e.Site, e.To)
+	}
 	canRead := map[*ssa.Function]bool{}
 	for _, f := range c.Fns {
 		if !c.InModule(f) || f.Blocks == nil {
 			continue
 		}
-		seen, _ := c.F.Reach([]*ssa.Function{f}, nil)
+		seen, _ := c.F.Reach([]*ssa.Function{f}, registration)
 		for r := range readers {
 			if seen[r] {
 				canRead[f] = true
@@ -80,6 +87,22 @@ func ruleOU15(c *Ctx) {
 				continue // a function value stored or registered (cobra's RunE), not a call made here
 			}
 			bySite[e.Site] = append(bySite[e.Site], e.To)
+		}
+		// running the command tree runs whichever handler was registered
+		for _, call := range callsIn(f) {
+			switch calleeFullName(call.Common()) {
+			case "(*github.com/spf13/cobra.Command).Execute", "(*github.com/spf13/cobra.Command).ExecuteC", "(*github.com/spf13/cobra.Command).ExecuteContext", "(*github.com/spf13/cobra.Command).ExecuteContextC":
+				var hs []*ssa.Function
+				for h := range handlers {
+					if canRead[h] {
+						hs = append(hs, h)
+					}
+				}
+				sort.Slice(hs, func(i, j int) bool { return c.Name(hs[i]) < c.Name(hs[j]) })
+				if len(hs) > 0 {
+					bySite[call] = append(bySite[call], hs...)
+				}
+			}
 		}
 		// calls of a func-typed parameter (retry(run func() error) { ... run() ... }): the functions its callers hand in
 		for _, call := range callsIn(f) {
@@ -123,4 +146,59 @@ func ruleOU15(c *Ctx) {
 		}
 	}
 	c.check(nBad == 0, "<module>", "stdin-read-once", "-", fmt.Sprintf("%d function(s) read os.Stdin; no call that reaches them sits in a loop or follows another on one path", len(readers)), "see the individual sites")
+}
+
+// cobraHandlers: the module functions stored into a func-typed field of a cobra.Command (Run, RunE, PreRunE, ...).
+func (c *Ctx) cobraHandlers() map[*ssa.Function]bool {
+	out := map[*ssa.Function]bool{}
+	for _, f := range c.Fns {
+		eachInstr(f, func(r instrRef) {
+			st, ok := r.In.(*ssa.Store)
+			if !ok {
+				return
+			}
+			fa, ok := st.Addr.(*ssa.FieldAddr)
+			if !ok || !strings.HasSuffix(namedTypeName(fa.X.Type()), "cobra.Command") {
+				return
+			}
+			for _, g := range funcValuesOf(st.Val, 0) {
+				if c.InModule(g) {
+					out[g] = true
+				}
+			}
+		})
+	}
+	return out
+}
+
+// registeredOnly: the function value made at site is used for nothing but being stored into a cobra.Command field.
+func (c *Ctx) registeredOnly(site ssa.Instruction, g *ssa.Function) bool {
+	var v ssa.Value
+	switch x := site.(type) {
+	case *ssa.MakeClosure:
+		v = x
+	case *ssa.Store:
+		fa, ok := x.Addr.(*ssa.FieldAddr)
+		return ok && strings.HasSuffix(namedTypeName(fa.X.Type()), "cobra.Command")
+	default:
+		return false
+	}
+	if v.Referrers() == nil {
+		return false
+	}
+	for _, r := range *v.Referrers() {
+		switch x := r.(type) {
+		case *ssa.DebugRef:
+		case *ssa.Store:
+			fa, ok := x.Addr.(*ssa.FieldAddr)
+			if !ok || x.Val != v || !strings.HasSuffix(namedTypeName(fa.X.Type()), "cobra.Command") {
+				return false
+			}
+		case *ssa.ChangeType, *ssa.MakeInterface:
+			return false
+		default:
+			return false
+		}
+	}
+	return true
 }
